@@ -12,6 +12,7 @@ MC = """CONSTANTS
   AgeLimit = 10
   DeletesCounted = %(dc)s
   AgeTestReversed = %(rev)s
+  MigrationCommits = %(mig)s
   MaxBuffered = 64
   AgeMust = 15
   BulkSizes = {%(bulk)s}
@@ -28,6 +29,7 @@ GEN = """CONSTANTS
   AgeLimit = 10
   DeletesCounted = TRUE
   AgeTestReversed = FALSE
+  MigrationCommits = TRUE
   MaxBuffered = 64
   AgeMust = 15
   BulkSizes = {2, 3, 30, 49, 50, 51, 70}
@@ -63,16 +65,17 @@ def relevant(prop, clause):
 def model_phase(rep, tier):
     q = tier == "quick"
     sizes = dict(bulk="30, 51" if q else "2, 30, 49, 51", ticks="9, 15" if q else "1, 9, 15", maxi=120 if q else 170, maxt=33 if q else 40)
-    res = tlc.model_check("AwDurable", MC % dict(dc="TRUE", rev="FALSE", invs=ALL_INVS, **sizes), tag="mc_dur", timeout=2400)
+    res = tlc.model_check("AwDurable", MC % dict(dc="TRUE", rev="FALSE", mig="TRUE", invs=ALL_INVS, **sizes), tag="mc_dur", timeout=2400)
     rep.add_model(res, "commit-policy design layer (counter > 50 or age > 10 s, deletes counted) satisfies the property layer "
                        "(BufferedBounded 64, BucketOpsDurable, AgeBound 15 s, CounterExact, DurableMonotone) for all histories within the bound (incl. operations that raise, crashes)")
     # negative controls: the same text with the pinned tree's knobs must be refuted (the properties are not vacuous)
     neg = {}
     small = MC.replace("Threshold = 50", "Threshold = 5").replace("MaxBuffered = 64", "MaxBuffered = 7")
-    for name, dc, rev, inv in (("deletes-uncounted", "FALSE", "FALSE", "INVARIANT BufferedBounded"),
-                               ("age-test-reversed", "TRUE", "TRUE", "INVARIANT AgeBound"),
-                               ("control-of-the-control", "TRUE", "FALSE", "INVARIANT BufferedBounded\nINVARIANT AgeBound")):
-        r = tlc.model_check("AwDurable", small % dict(dc=dc, rev=rev, invs=inv, bulk="2, 6", ticks="9, 15", maxi=24, maxt=33),
+    for name, dc, rev, mig, inv in (("deletes-uncounted", "FALSE", "FALSE", "TRUE", "INVARIANT BufferedBounded"),
+                                    ("age-test-reversed", "TRUE", "TRUE", "TRUE", "INVARIANT AgeBound"),
+                                    ("migration-not-committed", "TRUE", "FALSE", "FALSE", "INVARIANT BufferedBounded"),
+                                    ("control-of-the-control", "TRUE", "FALSE", "TRUE", "INVARIANT BufferedBounded\nINVARIANT AgeBound")):
+        r = tlc.model_check("AwDurable", small % dict(dc=dc, rev=rev, mig=mig, invs=inv, bulk="2, 5", ticks="9, 15", maxi=24, maxt=33),
                             tag="mc_dur_neg", expect_ok=False, timeout=1200)
         if name == "control-of-the-control":
             if not r["ok"]:
